@@ -577,6 +577,23 @@ func (fc *funcContext) typeName(ty types.Type) string {
 	return anonType.Name()
 }
 
+// declareNilMethod records that the method with the given JavaScript property
+// name is called through an interface value somewhere in the code being
+// translated, which makes that code depend on the matching declaration of
+// nilMethodDecls.
+func (fc *funcContext) declareNilMethod(prop string) {
+	stub, ok := fc.pkgCtx.nilMethodMap[prop]
+	if !ok {
+		stub = types.NewTypeName(token.NoPos, fc.pkgCtx.Pkg, "$nilMethod$"+prop, types.Typ[types.Invalid]) // fake types.TypeName
+		if fc.pkgCtx.nilMethodMap == nil {
+			fc.pkgCtx.nilMethodMap = map[string]*types.TypeName{}
+		}
+		fc.pkgCtx.nilMethodMap[prop] = stub
+		fc.pkgCtx.nilMethods = append(fc.pkgCtx.nilMethods, stub)
+	}
+	fc.pkgCtx.DeclareDCEDep(stub, nil, nil)
+}
+
 // importedPkgVar returns a package-level variable name for accessing an imported
 // package.
 //
